@@ -197,7 +197,9 @@ pub fn generate(s: &mut Session, thorough: bool) -> bool {
     for r in 0..nruns {
         let fault = faults[r % faults.len()];
         let nboards = rng.range(1, 4) as usize;
-        let wraps = rng.below(9);
+        // 0..=8 wraps as the property quantifies; one run in 25 lasts 257..=600 wraps (epoch counters
+        // beyond 8 and 9 bits: a time computed in 32 bits loses them)
+        let wraps = if r % 25 == 7 { 257 + rng.below(344) } else { rng.below(9) };
         let faulty_board = rng.below(nboards as u64) as usize;
         let mut streams: Vec<(String, Vec<Item>, Vec<u8>, Fault)> = Vec::new();
         for b in 0..nboards {
